@@ -15,7 +15,7 @@
     round ev=<c:ioe,…> out=<tokens>                   (epoll)
   ids: comma separated or `-`;  token: kind.c.st.eli.ep.bs.wh
 
-  mode tpc (thread-per-connection, Mhd.Model.LoopTpc; one model thread per connection):
+  mode tpc | tpcs (thread-per-connection with poll() | select(), Mhd.Model.LoopTpc; one model thread per connection):
     tnew <c> tmo=<ms>                                  the daemon thread created the connection's thread
     tstep <c> r=<0|1> w=<0|1> e=<0|1> [res=1] out=<tokens>
                                                        the thread's blocking call returned with this readiness; res=1: the
@@ -148,13 +148,15 @@ def showBlock : Option TBlock → String
     if b.onItc then s!"tpark on=itc ev=r tmo={if b.wait == .bounded250 then "250" else "?"}"
     else
       let ev := (if b.r then "r" else "") ++ (if b.w then "w" else "") ++ (if b.e then "e" else "")
-      let tmo := match b.wait with | .forever => "inf" | .zero => "0" | .deadline => "some" | .bounded250 => "250"
+      let tmo := match b.wait with | .forever => "inf" | .zero => "0" | .deadline => "some" | .bounded250 => "250" | .bounded1000 => "1000"
       s!"tpark on=sock ev={ev} tmo={tmo}"
 
 def showThreads (ths : List TThr) : String :=
   let srt := fun (l : List Nat) => l.mergeSort (fun a b => a ≤ b)
   let pick := fun (wh : Wh) => srt ((ths.filter (fun th => th.t.wh == wh)).map (·.t.c.id))
   s!"A={showIds (pick .active)} S={showIds (pick .susp)} C={showIds (pick .cleanup)}"
+
+def backendOf (s : DSt) : TBackend := if s.mode == "tpcs" then .select else .poll
 
 def tpcLine (s : DSt) (ws : List String) : DSt × List String :=
   match ws with
@@ -163,7 +165,7 @@ def tpcLine (s : DSt) (ws : List String) : DSt × List String :=
     | some c, some tmo =>
       if s.ths.any (fun th => th.t.c.id == c) then (s, ["bad-op"]) else
       let loc0 : Local Unit := { st := stInit, eli := .read, rdReady := false, wrReady := false, bufSpace := true, w := () }
-      let t0 : TState Unit := { c := { id := c, tmo := tmo, loc := loc0 }, wh := .active }
+      let t0 : TState Unit := { c := { id := c, tmo := tmo, loc := loc0 }, wh := .active, selBounded := selBoundedOf (backendOf s) }
       let h := tpcHead (opsOf []) t0
       ({ s with ths := s.ths ++ [{ t := h.1, blk := h.2 }] }, [s!"tnew wh={showWh h.1.wh} {showBlock h.2}"])
     | _, _ => (s, ["bad-op"])
@@ -194,17 +196,19 @@ def tpcLine (s : DSt) (ws : List String) : DSt × List String :=
       ({ s with ths := s.ths.map (fun th => if th.t.c.id == c then { th with resuming := true } else th) }, ["ok"])
     | none => (s, ["bad-op"])
   | ["tdaemon"] =>
-    let ths1 := s.ths.map (fun th => if th.resuming then { th with t := tpcResumed th.t, resuming := false } else th)
+    -- resume_suspended_connections as the daemon thread's cycle of this back-end does (or does not) call it: the model function
+    let cyc := tpcDaemonCycle (backendOf s) (s.ths.map (fun th => ({ t := th.t, resuming := th.resuming } : TThread Unit)))
+    let ths1 := (s.ths.zip cyc).map (fun (th, m) => { th with t := m.t, resuming := m.resuming })
     let ths2 := ths1.filter (fun th => !(th.blk.isNone && th.t.wh == .cleanup))
     ({ s with ths := ths2 }, [s!"tdaemon {showThreads ths2}"])
   | ["tstate"] => (s, [s!"tstate {showThreads s.ths}"])
   | _ => (s, ["bad-op"])
 
 def stepLine (s : DSt) (ws : List String) : DSt × List String :=
-  if s.mode == "tpc" && (match ws with | w :: _ => w.startsWith "t" | [] => false) then tpcLine s ws else
+  if (s.mode == "tpc" || s.mode == "tpcs") && (match ws with | w :: _ => w.startsWith "t" | [] => false) then tpcLine s ws else
   match ws with
   | "mode" :: m :: rest =>
-    if m == "tpc" then ({ mode := m }, ["ok"]) else
+    if m == "tpc" || m == "tpcs" then ({ mode := m }, ["ok"]) else
     if m ∈ ["select", "poll", "epoll", "pollthr"] then
       let sus := (kvOf rest "suspend").getD "1" != "0"
       ({ mode := m, d := { epoll := m == "epoll", allowSuspend := sus } }, ["ok"])
